@@ -89,7 +89,7 @@ def usermaps(draw):
     ident = 1
     for _ in range(n):
         role = draw(st.sampled_from(["rom", "rom", "rommirror", "rommirror", "ram", "rammirror"]))
-        length = draw(st.sampled_from([1, 1, 2, 3, 8, 16, 32, 48]))
+        length = draw(st.sampled_from([1, 1, 2, 3, 8, 16, 32, 48, 64, 65, 100, 126, 129, 200]))  # beyond 64 x 64K = 4 MiB and 128 x 32K too
         gap = draw(st.integers(0, 12))
         win = draw(st.sampled_from(["hi32", "hi32", "full64", "full64", "half64"]))
         if role in ("rommirror", "rammirror"):
